@@ -227,6 +227,8 @@ func (h *hand) do(op HOp) error {
 
 // probe performs op on a JSON clone of the current state (a side branch of length one)
 func (h *hand) probe(op HOp) error {
+	// recorded in the script as "?<op>": a replay of the script performs the same side branches
+	h.script.Ops = append(h.script.Ops, HOp{"?" + op.Op, op.Seat, op.X})
 	g := pf.NewPokerFace().NewGameFromState(cloneGS(h.g.GetState()))
 	err := callOn(g, op)
 	h.tw.emit(h.run, false, op.Op, op.Seat, op.X, err, g.GetState(), M{"kind": "probe"})
@@ -709,6 +711,10 @@ func readScripts(path string) []HScript {
 func replayScript(tw *traceWriter, s HScript, finish bool, r *rand.Rand) *hand {
 	h := newHand(tw, s.Run, s.Cfg)
 	for _, op := range s.Ops {
+		if strings.HasPrefix(op.Op, "?") {
+			h.probe(HOp{op.Op[1:], op.Seat, op.X})
+			continue
+		}
 		h.do(op)
 	}
 	h.script.Note = s.Note
